@@ -477,7 +477,7 @@ Lemma good_call id ck c l : call_ok ck = true ->
   good (call_error id ck c) l.
 Proof.
   intros Hok Hc Hs.
-  destruct ck as [k f| | |rt f|k|k|retry q| |code| | |n|n|k p2|k p2 n]; cbn [call_error].
+  destruct ck as [k f| | |rt f|k|k|retry q| |code| | |n|n|k p2|k p2 n|hist]; cbn [call_error].
   - (* CkReq *)
     destruct k, f; cbn [call_ok] in Hok; try discriminate;
       cbn [uses_cause call_sentinel] in *;
@@ -525,6 +525,8 @@ Proof.
     cbn [call_ok] in Hok. apply andb_true_iff in Hok as [Hn Hk].
     apply orb_true_iff in Hn as [Hn|Hn]; apply N.eqb_eq in Hn; subst n;
       destruct k, p2; cbn in Hk; try discriminate; split; reflexivity.
+  - (* CkReconnConnect *)
+    apply good_wrap. apply Hc. reflexivity.
 Qed.
 
 Lemma good_build d : shaped d = true -> good (build d) (spec_leaf d).
@@ -589,11 +591,12 @@ Theorem ctx_error_found id ck ce : ctx_call ck = true ->
 Proof.
   intros H. rewrite (errors_is_good _ (Some ce)).
   - cbn. rewrite sentinel_eqb_refl. reflexivity.
-  - destruct ck as [k f| | |rt f|k|k|retry q| |code| | |n|n|k p2|k p2 n]; cbn [ctx_call] in H; try discriminate.
+  - destruct ck as [k f| | |rt f|k|k|retry q| |code| | |n|n|k p2|k p2 n|hist]; cbn [ctx_call] in H; try discriminate.
     + apply andb_true_iff in H as [H1 H2]. apply good_call; [exact H1 | intros _; apply good_sent |].
       destruct f; cbn in H2 |- *; discriminate.
     + destruct f; try discriminate. apply good_call; [reflexivity | intros _; apply good_sent | cbn; discriminate].
     + apply N.eqb_eq in H. subst n. apply good_call; [reflexivity | intros _; apply good_sent | cbn; discriminate].
+    + apply good_call; [exact H | intros _; apply good_sent | cbn; discriminate].
 Qed.
 
 (* ---------- the retry handle: the closures refine the retransmission protocol ---------- *)
@@ -1156,7 +1159,7 @@ Lemma as_rt_call id ck c : call_ok ck = true ->
   errors_as AsReqTimeout (call_error id ck c) = call_rt ck (errors_as AsReqTimeout c).
 Proof.
   intros Hok.
-  destruct ck as [k f| | |rt f|k|k|retry q| |code| | |n|n|k p2|k p2 n]; cbn [call_error call_rt uses_cause].
+  destruct ck as [k f| | |rt f|k|k|retry q| |code| | |n|n|k p2|k p2 n|hist]; cbn [call_error call_rt uses_cause].
   - destruct k, f; cbn [call_ok] in Hok; try discriminate;
       unfold req_error, ret_err, publish_impl, subscribe_impl, unsubscribe_impl, ping_impl, connect_impl, retry_publish2;
       cbn -[wrap_with_retry wrap_error wrap_error_impl errors_as];
@@ -1182,6 +1185,7 @@ Proof.
   - cbn [call_ok] in Hok. apply andb_true_iff in Hok as [Hn Hk].
     apply orb_true_iff in Hn as [Hn|Hn]; apply N.eqb_eq in Hn; subst n;
       destruct k, p2; cbn in Hk; try discriminate; reflexivity.
+  - unfold wrap_error. rewrite as_rt_wrap. reflexivity.
 Qed.
 
 (* "identifiable as RequestTimeoutError" in both directions: for everything built from the real
@@ -1197,7 +1201,7 @@ Proof.
   - apply andb_true_iff in H as [H1 H2]. rewrite (as_rt_call _ _ _ H1).
     destruct (uses_cause ck) eqn:U.
     + rewrite (IHd H2). reflexivity.
-    + destruct ck as [k f| | |rt f|k|k|retry q| |code| | |n|n|k p2|k p2 n]; cbn [call_rt uses_cause] in *;
+    + destruct ck as [k f| | |rt f|k|k|retry q| |code| | |n|n|k p2|k p2 n|hist]; cbn [call_rt uses_cause] in *;
         try rewrite U; reflexivity.
 Qed.
 
